@@ -41,6 +41,7 @@ type frame struct {
 	boxes  []boxed
 	variants map[*ssa.BasicBlock]string
 	pendingName string
+	allocs []localAlloc
 	parent *frame
 }
 
@@ -90,6 +91,7 @@ func (f *frame) clone() *frame {
 		n.names[k] = v
 	}
 	n.boxes = append([]boxed(nil), f.boxes...)
+	n.allocs = append([]localAlloc(nil), f.allocs...)
 	if f.variants != nil {
 		n.variants = map[*ssa.BasicBlock]string{}
 		for k, v := range f.variants {
